@@ -1,0 +1,9 @@
+//go:build verif
+
+package control
+
+// VerifArmorChecksumLineOK hands armorChecksumLineOK to the verification
+// harness under /verif (built with -tags verif only).
+func VerifArmorChecksumLineOK(armored []byte) bool {
+	return armorChecksumLineOK(armored)
+}
